@@ -36,6 +36,7 @@ func setup(repo, tier string) *Prog {
 	p.tier = tier
 	p.needAppendAxiom = map[string]bool{}
 	p.sortAxioms = map[string]*Sort{}
+	p.copyAxioms = map[string]*Sort{}
 	p.permAxioms = map[string]*Sort{}
 	vd := os.Getenv("GOVC_VERIF")
 	if vd == "" {
